@@ -61,6 +61,29 @@ Proof.
   rewrite (rt_fixed 32 t _ Ht). cbn [bind]. rewrite (rt_u32le v rest Hv). reflexivity.
 Qed.
 
+Lemma ms_OutPoint : min_size enc_OutPoint wf_OutPoint 36.
+Proof.
+  intros [t v] Hw. unfold wf_OutPoint in Hw. cbn [op_txid op_vout] in Hw.
+  apply andb_true_iff in Hw. destruct Hw as [Ht _].
+  unfold enc_OutPoint. cbn [op_txid op_vout]. rewrite lenN_app.
+  pose proof (ms_fixed 32 t Ht). unfold enc_u32le. rewrite lenN_le. lia.
+Qed.
+
+(** blob fields: the size bound of the message bounds the blob *)
+Section BlobSizes.
+  Variable B : blob_ops.
+  Variable bound : N.
+  Hypothesis Hb : (bound <=? MAX_VEC_SIZE) = true.
+  Definition ty_any {A} (_ : A) : bool := true.
+  Definition ty_streamed (x : PsbtT B) : bool := streamable (psbt_view B x).
+  Lemma sw_ws_tx : size_wf (enc_ws_tx B) ty_any (wf_ws_tx B) bound.
+  Proof. apply sw_withsize; [apply sw_same|exact Hb]. Qed.
+  Lemma sw_ws_psbt : size_wf (enc_ws_psbt B) ty_any (wf_ws_psbt B) bound.
+  Proof. apply sw_withsize; [apply sw_same|exact Hb]. Qed.
+  Lemma sw_ws_streamed : size_wf (enc_ws_streamed B) ty_streamed (wf_ws_streamed B) bound.
+  Proof. apply sw_withsize; [apply sw_same|exact Hb]. Qed.
+End BlobSizes.
+
 (** ** StreamedPSBT: what the decoder hands to the signer *)
 
 Lemma post_input_spec t i i' f :
